@@ -43,6 +43,8 @@ Proof.
   - inversion H. now apply bytes_eqb_eq.
   - apply Z.eqb_eq in H. now subst.
   - inversion H. apply Z.eqb_refl.
+  - apply andb_true_iff in H as [H1 H2]. apply Z.eqb_eq in H1. apply bytes_eqb_eq in H2. now subst.
+  - inversion H. rewrite Z.eqb_refl. now apply bytes_eqb_eq.
 Qed.
 Lemma mkey_eqb_eq a b : mkey_eqb a b = true <-> a = b.
 Proof.
